@@ -448,7 +448,7 @@ func (c *isoCase) buildProvider(ps provSpec) {
 	opts := []op.Option{op.WithLogger(opdrv.Discard)}
 	opts = append(opts, ps.options()...)
 	issuer := "https://" + host
-	issuerFn := op.StaticIssuer(issuer)
+	mkIssuer := func() func(bool) (op.IssuerFromRequest, error) { return op.StaticIssuer(issuer) }
 	switch ps.Extra {
 	case "cors":
 		co := &cors.Options{AllowedOrigins: []string{"https://app.example"}, AllowedHeaders: []string{"Authorization", "X-C20"}, AllowedMethods: []string{"GET", "POST"}}
@@ -457,15 +457,17 @@ func (c *isoCase) buildProvider(ps provSpec) {
 	case "interceptor":
 		opts = append(opts, op.WithHttpInterceptors(func(h http.Handler) http.Handler { return h }))
 	case "hostissuer":
-		issuerFn = op.IssuerFromHost("")
+		mkIssuer = func() func(bool) (op.IssuerFromRequest, error) { return op.IssuerFromHost("") }
 	case "fwdissuer":
 		hs := []string{"x-forwarded-host", "forwarded"}
 		c.w.value(name+".issuer-headers", "C20:mutation:WithIssuerFromCustomHeaders.headers", func() any { return hs })
-		issuerFn = op.IssuerFromForwardedOrHost("", op.WithIssuerFromCustomHeaders(hs...))
+		mkIssuer = func() func(bool) (op.IssuerFromRequest, error) {
+			return op.IssuerFromForwardedOrHost("", op.WithIssuerFromCustomHeaders(hs...))
+		}
 	}
 	var inst *provInst
 	c.step("prov "+name, nil, greyProv, func() string {
-		p, err := op.NewProvider(cfgp, c.b.w.Storage, issuerFn, opts...)
+		p, err := op.NewProvider(cfgp, c.b.w.Storage, mkIssuer(), opts...)
 		if err != nil {
 			return "refused: " + err.Error()
 		}
